@@ -1111,12 +1111,34 @@ func TestC18(t *testing.T) {
 			if sig != "" {
 				violate(t, "C18", sig, msg, cs)
 			}
+			// The same file without a site: nothing matches in gen.go. A
+			// generated file must still not be echoed by --print-only, and
+			// everything else must behave as without the flag.
+			if cs.Flag && (cs.Mode == "print" || i%4 == 0) && strings.Contains(cs.Src, "\treturn cnt(0)\n") {
+				nm := *cs
+				nm.Src = strings.Replace(cs.Src, "\treturn cnt(0)\n", "\treturn other(0)\n", 1)
+				nm.Place += "/no-site"
+				sig, msg, info := evalC18(&nm)
+				if info.Invalid == "" {
+					c18Record(c, &nm, info, "table-no-site")
+					if sig != "" {
+						violate(t, "C18", sig, msg, &nm)
+					}
+				}
+			}
 		}
+	}
+	if t.Failed() {
+		return
 	}
 
 	// Part 2: random compositions.
 	checkN(t, func(rt *rapid.T) {
 		cs := c18DrawCase(rt)
+		if rapid.IntRange(0, 4).Draw(rt, "noSite") == 0 {
+			cs.Src = strings.Replace(cs.Src, "\treturn cnt(0)\n", "\treturn other(0)\n", 1)
+			cs.Place += "/no-site"
+		}
 		sig, msg, info := evalC18(cs)
 		c18Record(c, cs, info, "random")
 		if sig != "" {
